@@ -3,6 +3,7 @@
 # reverts, and records in meta.json which obligation (if any) reported it.
 import os, json, os, subprocess, sys, glob
 only = sys.argv[1:] 
+REPO = os.environ.get('VERIF_REPO', '/repo')  # a scratch worktree can be used instead of /repo (then set VERIF_OUT too)
 for d in sorted(glob.glob('/verif/seeded/*')):
     name = os.path.basename(d)
     if only and name not in only: continue
@@ -10,7 +11,7 @@ for d in sorted(glob.glob('/verif/seeded/*')):
     meta = json.load(open(mp)) if os.path.exists(mp) else {}
     prop = name[:3]
     checks = meta.get('checks_run', [prop])
-    r = subprocess.run(['git','-C','/repo','apply',os.path.join(d,'patch.diff')],capture_output=True,text=True)
+    r = subprocess.run(['git','-C',REPO,'apply',os.path.join(d,'patch.diff')],capture_output=True,text=True)
     if r.returncode != 0:
         meta['detection'] = {'applies': False, 'error': r.stderr.strip()}
         json.dump(meta, open(mp,'w'), indent=1); print(name, 'PATCH DOES NOT APPLY'); continue
@@ -21,7 +22,7 @@ for d in sorted(glob.glob('/verif/seeded/*')):
             failed = [l.strip() for l in p.stdout.splitlines() if l.strip().startswith('failed obligation:')]
             det['checks'][c] = {'exit': p.returncode, 'failed_obligations': [f.split()[2] for f in failed]}
     finally:
-        subprocess.run(['git','-C','/repo','checkout','--','.'])
+        subprocess.run(['git','-C',REPO,'checkout','--','.'])
     det['caught'] = any(v['exit'] != 0 for v in det['checks'].values())
     meta['detection'] = det
     json.dump(meta, open(mp,'w'), indent=1)
